@@ -418,12 +418,35 @@ func r05c(c *core.Ctx) {
 			}
 			n++
 			key := "reply-send:" + core.FuncName(fn)
-			c.Check(fn == rl, key+":only-readLoop", in.Pos(), fn, "replies are handed to waiters only by readLoop", "")
+			// readLoop itself, or a helper that only readLoop (and its helpers) call
+			inLoop := false
+			hs := helperReach(rl, 2)
+			hset := map[*ssa.Function]bool{}
+			for _, h := range hs {
+				hset[h] = true
+			}
+			if hset[fn] {
+				inLoop = true
+				for _, g := range c.SrcFuncs() {
+					if hset[g] || fn == rl {
+						continue
+					}
+					for _, call := range core.Calls(g) {
+						if core.StaticCallee(call) == fn {
+							inLoop = false
+						}
+					}
+				}
+			}
+			c.Check(inLoop, key+":only-readLoop", in.Pos(), fn, "replies are handed to waiters only by readLoop", "")
 			c.Check(!blocking, key+":non-blocking", in.Pos(), fn, "the hand-off is a select with default (a duplicate reply is dropped, the loop never blocks)", "")
 			// channel = getQueueC(<id of the very message being sent>)
 			chE := core.Expr(ch)
-			want := "c.getQueueC(" + core.Expr(val) + ".Header.ID)"
-			c.Check(chE == want, key+":routed-by-own-id", in.Pos(), fn, "the waiter is looked up by the ID of the reply being delivered", chE+" for reply "+core.Expr(val))
+			routed := false
+			if qc, isCall := ch.(*ssa.Call); isCall && core.StaticCallee(qc) == gq && len(qc.Call.Args) == 2 {
+				routed = core.Expr(qc.Call.Args[1]) == core.Expr(val)+".Header.ID"
+			}
+			c.Check(routed, key+":routed-by-own-id", in.Pos(), fn, "the waiter is looked up by the ID of the reply being delivered", chE+" for reply "+core.Expr(val))
 		})
 	}
 	if n == 0 {
